@@ -7,10 +7,10 @@ package main
 // is blocked (same rule as testing/synctest, which the native replay uses).
 
 import (
-	"strings"
 	"fmt"
 	"go/token"
 	"go/types"
+	"strings"
 
 	"golang.org/x/tools/go/ssa"
 )
